@@ -97,10 +97,11 @@ class TlcResult(object):
     def coverage_counts(self):
         """action name -> (distinct, total) from -coverage output."""
         res = {}
-        for m in re.finditer(r"^<(\w+) line \d+, col \d+ to line \d+, col \d+ of module \w+>: (\d+):(\d+)", self.out, re.M):
-            d, t = int(m.group(2)), int(m.group(3))
-            a = res.get(m.group(1), (0, 0))
-            res[m.group(1)] = (max(a[0], d), max(a[1], t))
+        for m in re.finditer(r"^<(\w+) line \d+, col \d+ to line \d+, col \d+ of module \w+(?: \((\d+) (\d+) \d+ \d+\))?>: (\d+):(\d+)", self.out, re.M):
+            d, t = int(m.group(4)), int(m.group(5))
+            name = m.group(1) + ("@line%s" % m.group(2) if m.group(2) else "")      # a disjunct of the next-state relation is reported by its position
+            a = res.get(name, (0, 0))
+            res[name] = (max(a[0], d), max(a[1], t))
         return res
 
 
